@@ -13,8 +13,10 @@ PROOF_NOTE = ("Trusted: Coq 8.16.1 kernel and vm_compute (no native_compute); th
 CHECKS = {
     "C01": dict(
         text=("Full: machine-checked theorems (closed under the global context) that the model of tensorly/base.py's unfold/fold/"
-              "tensor_to_vec/vec_to_tensor is the documented layout, a permutation of the entries and an exact inverse pair, for every "
-              "element type, order, shape with non-empty index space and mode; plus an exhaustive bit-exact correspondence of all nine "
+              "tensor_to_vec/vec_to_tensor is the documented layout, a permutation of the entries and an exact inverse pair; that partial_fold / partial_vec_to_tensor "
+              "invert partial_unfold / partial_tensor_to_vec whenever the latter succeed and that they succeed on the documented domain; that matricize "
+              "has the documented row/column layout, only permutes entries, defaults to the ascending complement and rejects non-permutations - for every "
+              "element type, order, shape with non-empty index space, mode and skip split (15 theorems); plus an exhaustive bit-exact correspondence of all nine "
               "functions (and of the NumPy primitives reshape/moveaxis/transpose) against the model on every shape of order 1-4 over "
               "mode sizes {1,2,3}, and byte-level dtype/layout predicates on the implementation."),
         technique="Coq proof (induction over shapes) + vm_compute differential correspondence",
